@@ -69,6 +69,14 @@ type caseMon struct {
 	prevKeys    map[string]bool
 	releasedKey map[string]base.StagePoint // non suffrage-confirm keys only
 	liveKeySP   map[string]base.StagePoint
+
+	// objects the box handed out (handout_test.go)
+	reissuedTo map[string]string // key whose record object was later seen live under another key -> that key (under mu)
+	hmu        sync.Mutex
+	handouts   []*handout
+	hseen      map[string]bool
+	tValid     time.Duration
+	tPrint     time.Duration
 }
 
 func (m *caseMon) trail() []string {
@@ -262,6 +270,13 @@ func (m *caseMon) remember(recs []isaacstates.VerifRecord) {
 		}
 	}
 	for _, rec := range recs {
+		if old, ok := m.known[rec.Ptr]; ok && old != rec.Key && rec.Key == bbrig.SPKey(rec.StagePoint, rec.IsSuffrageConfirm) {
+			// the record object which served stage point `old` now serves another one
+			if _, noted := m.reissuedTo[old]; !noted {
+				m.r.Count("records_seen_reissued_to_another_stage_point", 1)
+			}
+			m.reissuedTo[old] = rec.Key
+		}
 		m.known[rec.Ptr] = rec.Key
 		if strings.HasPrefix(rec.Key, "sf-") {
 			m.scSeen[rec.Key] = true
@@ -321,6 +336,7 @@ func (m *caseMon) sample(cleaned, exact bool) {
 		acc := m.d.Accepted(p, false)
 		got := box.Voted(p, all)
 		r.Count("Voted_calls", 1)
+		m.retainSFs(kindVoted, p, got)
 		for _, sf := range got {
 			f := sf.Fact().(base.BallotFact)
 			if !f.Point().Equal(p) {
@@ -353,6 +369,7 @@ func (m *caseMon) sample(cleaned, exact bool) {
 		if isLive && w.LocalIdx >= 0 {
 			missing, found, err := box.MissingNodes(p)
 			r.Count("MissingNodes_calls", 1)
+			m.retainAddrs(kindMissing, p, missing)
 			after := box.VerifRecords()
 			var rec *isaacstates.VerifRecord
 			for i := range after {
@@ -515,9 +532,13 @@ func (m *caseMon) judge(es []bbrig.Emission) int {
 			kind += ":expel"
 		}
 		r.Count("emitted:"+kind+":"+strings.ToLower(vp.Point().Stage().String())+":"+strings.ReplaceAll(vp.Result().String(), " ", "_"), 1)
+		// the emitted object is kept and looked at again after everything that
+		// happens later (handout_test.go)
 		if emb {
+			m.retainVP(kindEmbedded, vp)
 			continue
 		}
+		m.retainVP(kindCounted, vp)
 		counted++
 		accP := m.d.Accepted(vp.Point(), false)
 		accS := m.d.Accepted(vp.Point(), true)
@@ -629,7 +650,8 @@ func newMon(r *vlib.Run, b built) *caseMon {
 	d := bbrig.NewDriver(b.w, bbrig.DriverOpts{Interval: time.Millisecond, CountAfter: time.Millisecond, Start: true})
 	m := &caseMon{r: r, d: d, cp: b.cp, steps: b.steps, known: map[uintptr]string{}, scSeen: map[string]bool{},
 		live: map[uintptr]bool{}, vanished: map[uintptr]int{}, putCount: map[uintptr]int{},
-		liveKeySP: map[string]base.StagePoint{}, keyReleases: map[string]int{}, keyOpens: map[string]int{}, prevKeys: map[string]bool{}, releasedKey: map[string]base.StagePoint{}}
+		liveKeySP: map[string]base.StagePoint{}, keyReleases: map[string]int{}, keyOpens: map[string]int{}, prevKeys: map[string]bool{}, releasedKey: map[string]base.StagePoint{},
+		reissuedTo: map[string]string{}, hseen: map[string]bool{}}
 	current.Store(m)
 	return m
 }
@@ -655,8 +677,15 @@ func (m *caseMon) finish() (cleanups int) {
 	}
 	m.r.Count("settle_timeouts", m.timeouts)
 	m.r.Count("suffrage_confirm_records_seen", len(m.scSeen))
+	m.hmu.Lock()
+	handoutTime.Add(int64(m.tPrint))
+	handoutValidTime.Add(int64(m.tValid))
+	m.hmu.Unlock()
 	return 0
 }
+
+// time spent re-taking fingerprints / IsValid verdicts of handed out objects (log only)
+var handoutTime, handoutValidTime atomic.Int64
 
 func runSingle(r *vlib.Run, b built) (cleanups int) {
 	m := newMon(r, b)
@@ -700,6 +729,10 @@ func runSingle(r *vlib.Run, b built) (cleanups int) {
 				res = m.d.Do(0, st)
 			})
 			m.settle()
+			if res.Stuck != nil {
+				r.Count("emitted:stuck:"+strings.ToLower(res.Stuck.Point().Stage().String()), 1)
+				m.retainVP(kindStuck, res.Stuck)
+			}
 			if mustAccept {
 				r.Count("clean_votes_judged", 1)
 				la := m.d.Box.LastPoint()
@@ -718,6 +751,7 @@ func runSingle(r *vlib.Run, b built) (cleanups int) {
 			}
 			_ = m.d.Box.Count()
 			m.judge(m.d.Drain())
+			m.retainVP(kindLast, m.d.Box.LastVoteproof())
 			if m.aborted.Load() {
 				continue
 			}
@@ -781,6 +815,7 @@ func runSingle(r *vlib.Run, b built) (cleanups int) {
 			m.sample(cleaned, true)
 			// sampling (MissingNodes counts) may itself emit and clean
 			m.judge(m.d.Drain())
+			m.retainVP(kindLast, m.d.Box.LastVoteproof())
 			if m.d.Box.LastPoint() != lastBefore && !m.aborted.Load() {
 				cleanups++
 				m.mu.Lock()
@@ -811,6 +846,18 @@ func runSingle(r *vlib.Run, b built) (cleanups int) {
 			if over != "" && !m.aborted.Load() {
 				m.violation("release:stage-point-released-more-often-than-opened", over, nil)
 			}
+			// everything the box handed out so far still holds what it held when
+			// it was handed out (after every step)
+			if !m.aborted.Load() {
+				after := fmt.Sprintf("step %d %q", i, st.Desc)
+				if isVote {
+					after += fmt.Sprintf(" (a ballot for stage point %s)", st.SP)
+				}
+				m.recheck(after, false)
+			}
+		}
+		if !m.aborted.Load() {
+			m.recheck("the end of the case", true)
 		}
 	})
 	r.Count("cleanup_cycles_observed", cleanups)
@@ -854,7 +901,10 @@ func runConcurrent(r *vlib.Run, b built, goroutines int) (cleanups int) {
 					for i := lo + g; i < hi; i += goroutines {
 						st := &m.steps[i]
 						r.Guard("ballotbox:"+st.Op, map[string]any{"case": m.cp, "step": st.Desc}, func() {
-							_ = m.d.Do(g, st)
+							if res := m.d.Do(g, st); res.Stuck != nil {
+								r.Count("emitted:stuck:"+strings.ToLower(res.Stuck.Point().Stage().String()), 1)
+								m.retainVP(kindStuck, res.Stuck)
+							}
 						})
 					}
 				}(g)
@@ -873,6 +923,25 @@ func runConcurrent(r *vlib.Run, b built, goroutines int) (cleanups int) {
 			}
 			m.sample(false, false)
 			m.judge(m.d.Drain())
+			m.retainVP(kindLast, m.d.Box.LastVoteproof())
+			if !m.aborted.Load() {
+				sps := map[string]bool{}
+				for i := lo; i < hi; i++ {
+					if op := m.steps[i].Op; op == "vote" || op == "signfact" {
+						sps[m.steps[i].SP.String()] = true
+					}
+				}
+				var touched []string
+				for k := range sps {
+					touched = append(touched, k)
+				}
+				sort.Strings(touched)
+				m.recheck(fmt.Sprintf("the chunk of steps %d..%d run by %d goroutines (ballots for stage points %s)", lo, hi-1, goroutines, strings.Join(touched, ", ")), false)
+			}
+		}
+		if !m.aborted.Load() {
+			m.settle()
+			m.recheck("the end of the case", true)
 		}
 	})
 	r.SetAdd("interleavings_seen", m.d.OrderFingerprint())
@@ -895,10 +964,11 @@ func descs(steps []bbrig.Step, n int) []string {
 func TestC05(t *testing.T) {
 	r := vlib.Start(t, "C05", vlib.LevelExploration)
 	defer r.Finish()
-	r.SetRule("case = generated script (3-5 consecutive heights x rounds x INIT / suffrage-confirm / ACCEPT votes, expel heights, draws, deferred suffrage, noise: outsiders, conflicting and old/future ballots, SetLastPoint, stuck requests, MissingNodes) against one real Ballotbox at a time; after every step (single-threaded phase) or every 16-step chunk run by 2-12 goroutines (concurrent phase): hook H1 record list, pool-put stream, Voted and MissingNodes of every touched point, emitted voteproofs; distinct = (n, threshold, local, script hash, phase, goroutines); non-trivial = at least one cleanup cycle happened in the case (the last point moved by counting, which is when clean() runs)")
+	r.SetRule("case = generated script (3-5 consecutive heights x rounds x INIT / suffrage-confirm / ACCEPT votes, expel heights, draws, deferred suffrage, noise: outsiders, conflicting and old/future ballots, SetLastPoint, stuck requests, MissingNodes) against one real Ballotbox at a time; after every step (single-threaded phase) or every 16-step chunk run by 2-12 goroutines (concurrent phase): hook H1 record list, pool-put stream, Voted and MissingNodes of every touched point, emitted voteproofs; every object the box hands out (counted, embedded and stuck voteproofs, LastVoteproof(), the slices Voted() and MissingNodes() return) is kept with a deep fingerprint taken at hand-out (point, result, threshold, majority, every sign fact's node + fact point + fact hash + signature bytes, expels, hash bytes, IsValid verdict) and the fingerprint is re-taken after every later step / chunk and at the end of the case, through the later cleanup cycles that release its stage point's record and re-issue the record object to another stage point (every other single-threaded case runs on one P so that sync.Pool re-issues the record released last); distinct = (n, threshold, local, script hash, phase, one P or all Ps, goroutines); non-trivial = at least one cleanup cycle happened in the case (the last point moved by counting, which is when clean() runs)")
 	r.Assume("only ballots and sign facts that pass IsValid(networkID) are submitted")
 	r.Assume("one ballotbox is driven at a time (the record pool and its put hook are process-global); boxes of finished cases are stopped")
 	r.Assume("(v) 'nothing below the last point is reachable right after a cleanup' and the exact forms of (i)/(ii) are judged in the single-threaded phase only: with concurrent voters a vote may legitimately create a record for a point the box passes a moment later; the release checks at the pool-put hook and the structural checks are judged in both phases")
+	r.Assume("handed out objects are read by the goroutine that received them from the box (channel receive / return value), while no step of the rig is in flight; the box's own ticker keeps running")
 	r.Assume("MissingNodes is judged for isolation only: a node with no accepted sign fact for p must be reported missing for p (unless it is the local node); that a node which did vote for p is absent from the report is not demanded here")
 
 	isaacstates.VerifObservePoolPut(func(ptr uintptr, sp base.StagePoint, isSC bool) {
@@ -946,7 +1016,11 @@ func TestC05(t *testing.T) {
 		if prevProcs > 0 {
 			runtime.GOMAXPROCS(prevProcs)
 		}
-		fp := fmt.Sprintf("single/%d/%s/%v/%s", b.cp.N, b.cp.Threshold, b.cp.LocalIn, scriptHash(b.steps))
+		procs := "allP"
+		if prevProcs > 0 {
+			procs = "oneP"
+		}
+		fp := fmt.Sprintf("single/%s/%d/%s/%v/%s", procs, b.cp.N, b.cp.Threshold, b.cp.LocalIn, scriptHash(b.steps))
 		if c > 0 {
 			r.Case(fp)
 		} else {
@@ -963,7 +1037,8 @@ func TestC05(t *testing.T) {
 			r.Sample(map[string]any{"case": cp, "script_head": descs(b.steps, 10), "cleanup_cycles": c})
 		}
 	}
-	r.Logf("single-threaded phase: %d cases in %.1fs (cpu so far %.1fs)", n1, time.Since(t0).Seconds(), cpuSeconds())
+	r.Logf("single-threaded phase: %d cases in %.1fs (cpu so far %.1fs; re-taking fingerprints of handed out objects %.1fs, of which IsValid %.1fs)", n1, time.Since(t0).Seconds(), cpuSeconds(),
+		time.Duration(handoutTime.Load()).Seconds(), time.Duration(handoutValidTime.Load()).Seconds())
 	t0 = time.Now()
 	samples = 0
 	for i := range cases2 {
@@ -991,9 +1066,14 @@ func TestC05(t *testing.T) {
 		}
 	}
 
-	r.Logf("concurrent phase: %d cases in %.1fs (cpu so far %.1fs)", n2, time.Since(t0).Seconds(), cpuSeconds())
+	r.Logf("concurrent phase: %d cases in %.1fs (cpu so far %.1fs; re-taking fingerprints of handed out objects so far %.1fs, of which IsValid %.1fs)", n2, time.Since(t0).Seconds(), cpuSeconds(),
+		time.Duration(handoutTime.Load()).Seconds(), time.Duration(handoutValidTime.Load()).Seconds())
 	if r.Counter("cleanup_cycles_observed") == 0 || r.Counter("pool_puts_observed") == 0 {
 		r.Inconclusive("no cleanup cycle / no record release was observed")
+	}
+	r.Set("handed_out_seconds_spent_on_fingerprints_and_IsValid", fmt.Sprintf("%.1f (IsValid alone %.1f)", time.Duration(handoutTime.Load()).Seconds(), time.Duration(handoutValidTime.Load()).Seconds()))
+	if r.NViolations() == 0 && (r.Counter("handed_out_retained:"+kindCounted) == 0 || r.Counter("handed_out_objects_rechecked_after_their_record_was_reissued:"+kindCounted) == 0) {
+		r.Inconclusive("no emitted voteproof was looked at again after the record of its stage point had been re-issued to another stage point")
 	}
 	if r.Counter("suffrage_confirm_records_seen") == 0 {
 		r.Inconclusive("no suffrage-confirm record was ever live")
